@@ -84,6 +84,12 @@ def tree_copy_clear(ctx, P, rule="TREE-STATE"):
             conds = [FC.tu.src(i.kids[0]) for i, br in FC.enclosing_ifs(n)]
             flag = _opt_flag(cond)
             cond_ok = (flag is None and not conds) or (flag is not None and any(flag in c for c in conds))
+            # the option word tested must be the one stored in a tree (dest->options / self->options): the `options` ARGUMENT of
+            # tsk_tree_copy carries copy options such as TSK_NO_INIT, not the destination's tree options
+            if cond_ok and flag is not None:
+                for c_ in conds:
+                    if flag in c_ and not re.search(r"(dest|self)->options\s*&", c_):
+                        cond_ok = False
             ok = src_ok and sz_ok and cnt_ok and cond_ok
             why = "memcpy(dest->%s, %s, %s)" % (f, a[1], a[2])
             if not src_ok:
